@@ -2,7 +2,7 @@
 //! C17 — reset() equals starting over. Differential twins: several copies of the *real*
 //! scanner are driven in lock-step and must agree.
 
-use super::cc14::{c08_alphabet, random_cc14_event};
+use super::cc14::random_cc14_event;
 use super::pn::{pn_alphabet, random_pn_event};
 use crate::explore::{explore, Sys};
 use crate::mon::api;
@@ -37,7 +37,7 @@ pub trait AnyScan: Copy + Eq + std::fmt::Debug + Send + Sync + 'static {
     fn channels(o: &Self::Out) -> [Option<u8>; 2];
     fn contributing(cn: u8) -> bool;
     fn random_event(rng: &mut Rng, chans: u8, nvalues: u8, ticks: &[u64]) -> Ev;
-    fn alphabet(chans: &[u8], rich: bool) -> Vec<Ev>;
+    fn alphabet(chans: &[u8], rich: bool, values: &[u8; 2]) -> Vec<Ev>;
 }
 
 impl AnyScan for ControlChange14BitMessageScanner {
@@ -71,16 +71,16 @@ impl AnyScan for ControlChange14BitMessageScanner {
     fn random_event(rng: &mut Rng, chans: u8, nvalues: u8, _ticks: &[u64]) -> Ev {
         random_cc14_event(rng, chans, nvalues < 128)
     }
-    fn alphabet(chans: &[u8], rich: bool) -> Vec<Ev> {
+    fn alphabet(chans: &[u8], rich: bool, values: &[u8; 2]) -> Vec<Ev> {
         let mut a = vec![];
         for (i, &c) in chans.iter().enumerate() {
             if i == 0 || rich {
                 for n in 0u8..64 {
-                    a.push(Ev::cc(c, n, 1));
+                    a.push(Ev::cc(c, n, values[1]));
                 }
             } else {
                 for n in [0u8, 31, 32, 63] {
-                    a.push(Ev::cc(c, n, 1));
+                    a.push(Ev::cc(c, n, values[1]));
                 }
             }
             a.push(Ev::cc(c, 64, 1));
@@ -125,8 +125,8 @@ impl AnyScan for ParameterNumberMessageScanner {
     fn random_event(rng: &mut Rng, chans: u8, nvalues: u8, _ticks: &[u64]) -> Ev {
         random_pn_event(rng, chans, nvalues, false, &[])
     }
-    fn alphabet(chans: &[u8], rich: bool) -> Vec<Ev> {
-        let mut a = pn_alphabet(chans, if rich { &[0, 1] } else { &[1] }, false, None);
+    fn alphabet(chans: &[u8], rich: bool, values: &[u8; 2]) -> Vec<Ev> {
+        let mut a = pn_alphabet(chans, if rich { &values[..] } else { &values[1..] }, false, None);
         a.push(Ev::Msg(0xF0 | chans[0], 6, 38));
         a.push(Ev::Msg(0xF0 | chans[chans.len() - 1], 99, 98));
         a
@@ -165,8 +165,8 @@ impl AnyScan for PollingParameterNumberMessageScanner {
     fn random_event(rng: &mut Rng, chans: u8, nvalues: u8, ticks: &[u64]) -> Ev {
         random_pn_event(rng, chans, nvalues, true, ticks)
     }
-    fn alphabet(chans: &[u8], rich: bool) -> Vec<Ev> {
-        let mut a = pn_alphabet(chans, if rich { &[0, 1] } else { &[1] }, true, Some(TICK));
+    fn alphabet(chans: &[u8], rich: bool, values: &[u8; 2]) -> Vec<Ev> {
+        let mut a = pn_alphabet(chans, if rich { &values[..] } else { &values[1..] }, true, Some(TICK));
         a.push(Ev::Msg(0xF0 | chans[0], 6, 38));
         a.push(Ev::Msg(0xF0 | chans[chans.len() - 1], 99, 98));
         a
@@ -343,9 +343,10 @@ fn c15_for<S: AnyScan>(cfg: &Cfg, rep: &mut Report, timeouts: &[u64]) {
     let mut tot_states = 0;
     let mut tot_trans = 0;
     let mut all_fix = true;
+    let vp = crate::util::value_pairs(cfg, 0xC15, 7);
     for &t in timeouts {
-        for &(a, b) in &pairs {
-            let alpha = S::alphabet(&[a, b], rich);
+        for (pi, &(a, b)) in pairs.iter().enumerate() {
+            let alpha = S::alphabet(&[a, b], rich, &vp[pi % vp.len()]);
             let (st, _) = explore(cfg, Iso::<S>::new(t, [a, b]), &alpha, 1_500_000, rep, false);
             tot_states += st.states;
             tot_trans += st.transitions;
@@ -526,17 +527,21 @@ impl<S: AnyScan> Sys for Transp<S> {
 
 fn c16_for<S: AnyScan>(cfg: &Cfg, rep: &mut Report, timeouts: &[u64]) {
     let full = cfg.thorough && cfg.release && !cfg.as_c18;
-    for &t in timeouts {
-        let chan = 4u8;
+    let vp = crate::util::value_pairs(cfg, 0xC16, 2);
+    let mut setups: Vec<(u64, u8, [u8; 2])> = timeouts.iter().map(|t| (*t, 4u8, [0u8, 1u8])).collect();
+    for (i, p) in vp.iter().enumerate().skip(1) {
+        setups.push((*timeouts.last().unwrap(), crate::util::rotating_channel(cfg, i), *p));
+    }
+    for (t, chan, vals) in setups {
         let mut msgs = noncontributing_messages::<S>(chan, full);
         if cfg.as_c18 && !cfg.thorough {
             msgs = msgs.into_iter().step_by(23).collect();
         }
         rep.count(&format!("c16_{}_noncontributing_messages", S::NAME), msgs.len() as u64);
         let alpha = if S::NAME == "cc14" {
-            c08_alphabet(false, chan)
+            super::cc14::c08_alphabet_v(false, chan, &[vals[0], vals[1], 127])
         } else {
-            S::alphabet(&[chan], !cfg.as_c18)
+            S::alphabet(&[chan], !cfg.as_c18, &vals)
         };
         let init = Transp::<S> {
             s: S::make(t),
@@ -551,7 +556,7 @@ fn c16_for<S: AnyScan>(cfg: &Cfg, rep: &mut Report, timeouts: &[u64]) {
         rep.transitions += st.transitions;
         rep.distinct_nontrivial += st.states;
         rep.notes.insert(
-            format!("state_explorer_{}_t{}", S::NAME, if t == u64::MAX { "inf".to_string() } else { t.to_string() }),
+            format!("state_explorer_{}_t{}_ch{}_values{:?}", S::NAME, if t == u64::MAX { "inf".to_string() } else { t.to_string() }, chan, vals),
             json!({"states":st.states,"transitions":st.transitions,"depth":st.depth,"fixpoint_reached":st.fixpoint}),
         );
         if !st.fixpoint {
@@ -893,12 +898,17 @@ impl<S: AnyScan> Sys for ResetSys<S> {
 }
 
 fn c17_for<S: AnyScan>(cfg: &Cfg, rep: &mut Report, timeouts: &[u64]) {
-    for &t in timeouts {
-        let chans = [3u8, 12];
+    let vp = crate::util::value_pairs(cfg, 0xC17, 2);
+    let mut setups: Vec<(u64, [u8; 2], [u8; 2])> = timeouts.iter().map(|t| (*t, [3u8, 12u8], [0u8, 1u8])).collect();
+    for (i, p) in vp.iter().enumerate().skip(1) {
+        let (a, b) = (crate::util::rotating_channel(cfg, i), crate::util::rotating_channel(cfg, i + 7));
+        setups.push((*timeouts.last().unwrap(), [a, b], *p));
+    }
+    for (t, chans, vals) in setups {
         let alpha = if S::NAME == "cc14" {
-            c08_alphabet(false, chans[0])
+            super::cc14::c08_alphabet_v(false, chans[0], &[vals[0], vals[1], 127])
         } else {
-            S::alphabet(if cfg.as_c18 { &chans[..1] } else { &chans[..] }, false)
+            S::alphabet(if cfg.as_c18 { &chans[..1] } else { &chans[..] }, false, &vals)
         };
         let init = ResetSys::<S> {
             s: S::make(t),
@@ -913,7 +923,7 @@ fn c17_for<S: AnyScan>(cfg: &Cfg, rep: &mut Report, timeouts: &[u64]) {
         rep.transitions += st.transitions;
         rep.distinct_nontrivial += st.states;
         rep.notes.insert(
-            format!("state_explorer_{}_t{}", S::NAME, if t == u64::MAX { "inf".to_string() } else { t.to_string() }),
+            format!("state_explorer_{}_t{}_ch{:?}_values{:?}", S::NAME, if t == u64::MAX { "inf".to_string() } else { t.to_string() }, chans, vals),
             json!({"states":st.states,"transitions":st.transitions,"depth":st.depth,"fixpoint_reached":st.fixpoint}),
         );
         if !st.fixpoint {
